@@ -89,6 +89,25 @@ def check_traversal(report):
                      f"types reachable through {ci.name}.{fname} would be pruned although a kept RPC still references them")
         # guards: every allow-list membership fact under which something runs must be about the node's OWN identity
         from .common_rules import stmt_guards
+        # C16.1g (seed C16e): the walk into field f may depend only on f itself (is it set?) or on the node's own identity - a fact
+        # about a SIBLING field (an early `return` in an unrolled loop over (self.a, self.b)) prunes what is reachable through f
+        # whenever the sibling has the tested shape.  Judged on the normal form, where such loops are unrolled.
+        for guards, st in stmt_guards(nfn):
+            s_ = ast.unparse(st)
+            if not (isinstance(st, ast.Expr) and s_.startswith("self.") and ".add_to_address_allowlist(" in s_):
+                continue
+            tgt = s_.split(".add_to_address_allowlist(")[0]            # e.g. self.metadata_type
+            fld = tgt.split(".")[1] if tgt.count(".") >= 1 else None
+            sibs = [f2 for f2, mem2 in ci.members.items() if mem2.kind == "field" and f2 != fld]
+            for g in guards:
+                if g[0] == "for" or "address_allowlist" in g[0]:
+                    continue
+                bad = [f2 for f2 in sibs if __import__("re").search(r"\bself\." + f2 + r"\b", g[0])]
+                r1.instance(f"{ci.name}.{fld}: walk guard `{g[0]}`")
+                r1.check(not bad, p, getattr(st, "lineno", fn.lineno),
+                         f"{ci.name}.add_to_address_allowlist walks `{fld}` only when {'' if g[1] else 'not '}{g[0]} - a fact about sibling field {bad}",
+                         f"whether the types reachable through {ci.name}.{fld} are kept must not depend on another field; they are "
+                         "pruned for inputs where the sibling has the tested shape although a kept RPC still references them")
         sg = stmt_guards(fn)
         facts = {g for guards, _ in sg for g in guards if g[0] != "for" and "address_allowlist" in g[0]}
         for g in sorted(facts):
